@@ -37,6 +37,10 @@ type rcfg struct {
 	lateOutside []acc // remote requests that arrive late (e.g. while a drain acknowledgement is stuck)
 	lateOutAt  int
 	secondDrainAfter int // > 0: a second DrainReq this many cycles after the first RestartRsp was taken
+	// pipelined: the second DrainReq follows the RestartReq at once, without waiting for the RestartRsp to be taken
+	// (the engine handles control requests in order; an acknowledgement still sitting in the 1-entry control port
+	// makes the next one fail to send)
+	pipelined bool
 }
 
 const (
@@ -319,6 +323,11 @@ func rdmaBody(c rcfg) explore.Body {
 			if _, ok := m.(*rdma.DrainRsp); ok {
 				ctlF.Add(rdma.RestartReqBuilder{}.WithSrc(cp).WithDst(ctl.AsRemote()).Build(), false)
 				ctlF.Q[len(ctlF.Q)-1].Ready += c.restartDly
+				if c.pipelined && drains == 1 {
+					drains = 2
+					ctlF.Add(rdma.DrainReqBuilder{}.WithSrc(cp).WithDst(ctl.AsRemote()).Build(), false)
+					ctlF.Q[len(ctlF.Q)-1].Ready += c.restartDly + 1
+				}
 			}
 			if _, ok := m.(*rdma.RestartRsp); ok && c.secondDrainAfter > 0 && drains == 1 {
 				secondAt = w.Cycle() + c.secondDrainAfter
@@ -452,6 +461,12 @@ func rdmaScenarios(r *harness.Run) []harness.Scenario {
 				add(fmt.Sprintf("buf1/ctl-backpressure/drain@%d/second+%d/late-remote@%d", da, gap, lo),
 					rcfg{buf: 1, inside: ins[1][:1], outside: outs[0][:1], drainAt: da, restartDly: 0, ctlStall: true, lateOutside: lateOut, lateOutAt: lo, secondDrainAfter: gap}, bound-1)
 			}
+		}
+	}
+	for _, da := range []int{2, 5} {
+		for _, lo := range []int{da + 5, da + 7, da + 9, da + 11, da + 13} {
+			add(fmt.Sprintf("buf1/ctl-backpressure/drain@%d/pipelined-second/late-remote@%d", da, lo),
+				rcfg{buf: 1, inside: ins[1][:1], outside: outs[0][:1], drainAt: da, restartDly: 0, ctlStall: true, lateOutside: lateOut, lateOutAt: lo, pipelined: true}, bound-1)
 		}
 	}
 	return scs
